@@ -370,15 +370,13 @@ Theorem listed_subscriptions_fetchable : forall r k0 d2 kw2 o2 kind x,
 Proof. exact RealmC05.listed_subscriptions_fetchable. Qed.
 Print Assumptions listed_subscriptions_fetchable.
 
-Theorem listed_registrations_fetchable_partial : forall r k0 d2 kw2 o2 kind x,
+Theorem listed_registrations_fetchable : forall r k0 d2 kw2 o2 kind x,
     realm_wf r -> ids_below k0 r -> k0 <= max_idN ->
     In x (match reg_ids_by (r_dealer r) kind with VList l => l | _ => [] end) ->
-    exists id, x = vid id /\
-      (0 < id ->
-       exists rg, nget (d_regs (r_dealer r)) id = Some rg /\
-                  meta_call r "wamp.registration.get" d2 [x] kw2 o2 = (r, MYield [reg_dict rg] [], None)).
-Proof. exact RealmC05.listed_registrations_fetchable_partial. Qed.
-Print Assumptions listed_registrations_fetchable_partial.
+    exists id rg, x = vid id /\ nget (d_regs (r_dealer r)) id = Some rg /\
+                  meta_call r "wamp.registration.get" d2 [x] kw2 o2 = (r, MYield [reg_dict rg] [], None).
+Proof. exact RealmC05.listed_registrations_fetchable. Qed.
+Print Assumptions listed_registrations_fetchable.
 
 (** ** Non-vacuity: a reachable realm (three sessions, a subscription, a
     registration, a meta-topic observer); the meta procedures reached through
